@@ -5,9 +5,13 @@
 use crate::util::report::{finish, Ctx, Meta, Report, ReportData};
 use std::path::PathBuf;
 
+pub mod c01;
+pub mod c04;
 pub mod c06;
+pub mod c09;
 pub mod c13;
 pub mod c15;
+pub mod c16;
 pub mod c18;
 pub mod c19;
 pub mod c20;
@@ -23,9 +27,13 @@ pub struct CheckDef {
 
 pub fn registry() -> Vec<CheckDef> {
     vec![
+        c01::def(),
+        c04::def(),
         c06::def(),
+        c09::def(),
         c13::def(),
         c15::def(),
+        c16::def(),
         c18::def(),
         c19::def(),
         c20::def(),
@@ -154,4 +162,9 @@ pub fn selftest() -> i32 {
     run("rpmvercmp-port vs upstream vectors", crate::model::rpmvercmp::selftest());
     run("caps grammar", crate::model::caps::selftest());
     if bad == 0 { 0 } else { 1 }
+}
+
+/// judges that run inside worker children (`rpmverif worker <name>`)
+pub fn worker_judges() -> Vec<(&'static str, crate::monitor::worker::Judge)> {
+    vec![("c04", c04::judge_c04), ("c01", c01::judge_c01)]
 }
